@@ -580,7 +580,8 @@ loopbreak:
 	L.Call(1, 1)
 	ret := L.reg.Pop()
 	modv := L.GetField(loaded, name)
-	if ret != LNil && modv == loopdetection {
+	if ret != LNil {
+		// a value returned by the loader replaces what it stored in package.loaded itself
 		L.SetField(loaded, name, ret)
 		L.Push(ret)
 	} else if modv == loopdetection {
